@@ -357,3 +357,59 @@ def backward_checks(rep, fnd, pid, tier):
             else:
                 n_ok += 1
     rep.count("scat_backward_cases_ok", n_ok)
+
+
+def forward_regimes(rep, pid, tier):
+    """The forward values of the scattering layers must not depend on HOW the layer is used: autograd mode, the input
+    requiring grad, a non-contiguous (permuted-view) input, the Python type the bias was given in, a deep copy / pickle of the
+    layer.  Differential against the plain call (float bias, contiguous input, grad enabled), whose values the reference
+    composition above has decided."""
+    import copy
+    import pickle
+    torch.set_default_dtype(torch.float64)
+    rng = np.random.default_rng(44000 + seed())
+    n = 0
+    for name, make, shape in (("ScatLayer(near_sym_a)", lambda b: pw.ScatLayer(magbias=b), (2, 3, 10, 12)),
+                              ("ScatLayer(near_sym_b_bp,colour)", lambda b: pw.ScatLayer(biort="near_sym_b_bp", magbias=b, combine_colour=True), (1, 3, 8, 8)),
+                              ("ScatLayerj2(near_sym_a)", lambda b: pw.ScatLayerj2(magbias=b), (1, 2, 16, 8)),
+                              ("ScatLayerj2(near_sym_b_bp)", lambda b: pw.ScatLayerj2(biort="near_sym_b_bp", qshift="qshift_b_bp", magbias=b), (2, 2, 8, 16))):
+        for b in (0.5, 1.0):
+            x = torch.tensor(rng.standard_normal(shape))
+            lay = make(float(b))
+            base = lay(x).detach()
+            xp = torch.tensor(np.ascontiguousarray(np.moveaxis(x.numpy(), 1, -1))).permute(0, 3, 1, 2)      # NHWC storage, NCHW view
+            variants = [("torch.no_grad()", lambda: _ng(lay, x)), ("torch.inference_mode()", lambda: _im(lay, x)),
+                        ("input requires grad", lambda: lay(x.clone().requires_grad_(True)).detach()),
+                        ("permuted-view (channels-last storage) input", lambda: lay(xp)),
+                        ("magbias given as numpy.float64", lambda: make(np.float64(b))(x)),
+                        ("magbias given as numpy.float32", lambda: make(np.float32(b))(x)),
+                        ("deep copy of the layer", lambda: copy.deepcopy(lay)(x)),
+                        ("pickled layer", lambda: pickle.loads(pickle.dumps(lay))(x)),
+                        ("second call of the same object", lambda: lay(x))]
+            if b == 1.0:
+                variants.append(("magbias given as the int 1", lambda: make(1)(x)))
+            for label, fn in variants:
+                cfg = dict(layer=name, magbias=b, regime=label, shape=list(shape))
+                rep.validated()
+                rep.nontriv(("scat_regime", name, b, label))
+                n += 1
+                try:
+                    z = fn().detach()
+                except Exception as e:   # noqa
+                    rep.violation("%s raised %r in the regime '%s'" % (name, e, label), {"api": name, "check": "scat_regime", "cfg": cfg})
+                    continue
+                if z.dtype != base.dtype or z.shape != base.shape or not float((z - base).abs().max()) <= 1e-12 * (float(base.abs().max()) + 1e-300):
+                    rep.violation("%s: the forward values in the regime '%s' differ from the plain call (dtype %s, max deviation %.3g)"
+                                  % (name, label, z.dtype, float((z.double() - base).abs().max()) if z.shape == base.shape else float("nan")),
+                                  {"api": name, "check": "scat_regime", "cfg": cfg})
+    rep.count("scat_forward_regimes", n)
+
+
+def _ng(lay, x):
+    with torch.no_grad():
+        return lay(x)
+
+
+def _im(lay, x):
+    with torch.inference_mode():
+        return lay(x).clone()
